@@ -168,7 +168,7 @@ def load_status(name):
 
 def sh(cmd, cwd=None, env=None, timeout=None):
     try:
-        r = subprocess.run(cmd, shell=True, cwd=cwd, env=env, capture_output=True, text=True, timeout=timeout)
+        r = subprocess.run(cmd, shell=True, cwd=cwd, env=env, capture_output=True, text=True, errors="replace", timeout=timeout)
         return r.returncode, r.stdout + r.stderr
     except subprocess.TimeoutExpired as e:
         return 124, "timeout"
@@ -203,6 +203,7 @@ def revert(repo, m):
 def filter_lane(args):
     n, muts = args
     repo = lane_repo(n)
+    sh(f"git -C {repo} checkout -- .")
     env = dict(os.environ, CARGO_NET_OFFLINE="true", CARGO_TARGET_DIR=f"{lane_dir(n)}/target", CARGO_BUILD_JOBS="6")
     res = {}
     for m in muts:
@@ -261,6 +262,7 @@ def lane_verif(n):
 def check_lane(args):
     n, muts = args
     repo = lane_repo(n)
+    sh(f"git -C {repo} checkout -- .")
     v = lane_verif(n)
     res = {}
     for m in muts:
